@@ -198,3 +198,38 @@ func (q *Quote) SignQuote(akKey, pckKey *ecdsa.PrivateKey) {
 	q.Sig = SignRS(akKey, append(append([]byte{}, q.Header...), q.Body...))
 	q.QESig = SignRS(pckKey, q.QEReport)
 }
+
+// Decode is the harness's reference reader: it cuts a byte string along the layout table using the
+// declared size fields. It does not decide acceptance (the TLA+ parser machine does); it only says
+// which bytes each field must consist of when the input is accepted. ok=false if the declared sizes
+// do not fit the input.
+func Decode(raw []byte) (q *Quote, ok bool) {
+	defer func() {
+		if recover() != nil {
+			q, ok = nil, false
+		}
+	}()
+	if len(raw) < OffSignedData {
+		return nil, false
+	}
+	q = &Quote{Header: raw[0:HeaderSize], Body: raw[OffBody : OffBody+BodySize]}
+	sd := binary.LittleEndian.Uint32(raw[OffSDSize:])
+	q.SignedDataSize = &sd
+	signed := raw[OffSignedData : uint64(OffSignedData)+uint64(sd)]
+	q.Extra = raw[uint64(OffSignedData)+uint64(sd):]
+	q.Sig, q.AK = signed[0:64], signed[64:128]
+	ct := binary.LittleEndian.Uint16(signed[128:])
+	cs := binary.LittleEndian.Uint32(signed[130:])
+	q.CertType, q.CertSize = &ct, &cs
+	cert := signed[134:]
+	q.QEReport, q.QESig = cert[0:384], cert[384:448]
+	as := binary.LittleEndian.Uint16(cert[448:])
+	q.AuthSize = &as
+	q.Auth = cert[450 : 450+int(as)]
+	rest := cert[450+int(as):]
+	pt := binary.LittleEndian.Uint16(rest[0:])
+	ps := binary.LittleEndian.Uint32(rest[2:])
+	q.PckType, q.PckSize = &pt, &ps
+	q.Chain = rest[6:]
+	return q, true
+}
